@@ -195,6 +195,62 @@ class Model:
                             if k.arg == renamed[nm]:
                                 k.arg = 'out'
 
+    def _canonicalise_dispatch_tables(self):
+        """A method that selects its worker from a class-level table keyed by operand kinds,
+            name = cls._table.get((isinstance(A, UTPM), isinstance(x, UTPM)));  if name is None: raise ...;  return getattr(cls, name)(A, x, out)
+        reads like the if/elif chain over the same tests that calls the workers directly (the workers, being new private
+        helpers, are then expanded in place like any other helper)."""
+        for mi in self.modules.values():
+            for ci in mi.classes.values():
+                tables = {k: v for k, v in ci.attrs.items() if isinstance(v, ast.Dict) and v.keys and all(
+                    isinstance(kk, ast.Tuple) and all(isinstance(e, ast.Constant) and isinstance(e.value, bool) for e in kk.elts)
+                    and isinstance(vv, ast.Constant) and isinstance(vv.value, str) for kk, vv in zip(v.keys, v.values))}
+                if not tables:
+                    continue
+                for fi in ci.all_defs:
+                    body = fi.node.body
+                    for i, st in enumerate(body):
+                        if not (isinstance(st, ast.Assign) and len(st.targets) == 1 and isinstance(st.targets[0], ast.Name)):
+                            continue
+                        v = st.value
+                        key = tab = None
+                        if isinstance(v, ast.Call) and isinstance(v.func, ast.Attribute) and v.func.attr == 'get' and len(v.args) == 1 \
+                                and isinstance(v.func.value, ast.Attribute) and v.func.value.attr in tables and isinstance(v.args[0], ast.Tuple):
+                            tab, key = tables[v.func.value.attr], v.args[0]
+                        elif isinstance(v, ast.Subscript) and isinstance(v.value, ast.Attribute) and v.value.attr in tables and isinstance(v.slice, ast.Tuple):
+                            tab, key = tables[v.value.attr], v.slice
+                        if tab is None or any(len(k.elts) != len(key.elts) for k in tab.keys):
+                            continue
+                        nm = st.targets[0].id
+                        rest = body[i + 1:]
+                        # optional guard `if name is None: raise`, then `return getattr(cls, name)(...)`
+                        guard = None
+                        if rest and isinstance(rest[0], ast.If) and norm(rest[0].test) == '%s is None' % nm and not rest[0].orelse:
+                            guard, rest = rest[0], rest[1:]
+                        if not (len(rest) == 1 and isinstance(rest[0], ast.Return) and isinstance(rest[0].value, ast.Call)
+                                and isinstance(rest[0].value.func, ast.Call) and norm(rest[0].value.func.func) == 'getattr'
+                                and len(rest[0].value.func.args) == 2 and norm(rest[0].value.func.args[1]) == nm):
+                            continue
+                        call = rest[0].value
+                        recv = call.func.args[0]
+                        chain = None
+                        tail = list(guard.body) if guard is not None else [ast.copy_location(ast.Raise(exc=ast.Call(func=ast.Name(id='KeyError', ctx=ast.Load()), args=[], keywords=[]), cause=None), st)]
+                        for k, w in reversed(list(zip(tab.keys, tab.values))):
+                            tests = [t if e.value else ast.UnaryOp(op=ast.Not(), operand=t) for t, e in zip(key.elts, k.elts)]
+                            test = tests[0] if len(tests) == 1 else ast.BoolOp(op=ast.And(), values=[copy.deepcopy(t) for t in tests])
+                            ret = ast.Return(value=ast.Call(func=ast.Attribute(value=copy.deepcopy(recv), attr=w.value, ctx=ast.Load()),
+                                                            args=copy.deepcopy(call.args), keywords=copy.deepcopy(call.keywords)))
+                            node = ast.If(test=test, body=[ret], orelse=chain if chain is not None else tail)
+                            chain = [node]
+                        for n_ in ast.walk(chain[0]):
+                            if not hasattr(n_, 'lineno'):
+                                n_.lineno = st.lineno
+                                n_.end_lineno = getattr(st, 'end_lineno', st.lineno)
+                                n_.col_offset = st.col_offset
+                                n_.end_col_offset = getattr(st, 'end_col_offset', st.col_offset)
+                        fi.node.body = body[:i] + chain
+                        break
+
     # --------------------------------------------------------------- inlining
     def _inline_recording_helpers(self, mi, known=None):
         """Methods of the tracer classes may delegate part of their work to a private helper of the same class
@@ -342,7 +398,13 @@ class Model:
             except SyntaxError as e:
                 raise AnalysisError('E0.parse', rel, 'syntax error: %s' % e)
             _canonicalise_imports(tree)
+            _canonicalise_copyto(tree)
+            _canonicalise_ndindex(tree)
+            if rel.endswith('tracer/tracer.py'):
+                # the tracer rules read access paths (`F.setitem`, `cls.cgraph`, `F.args[0].x`); the kernels keep their locals (E1/E2 follow them)
+                _canonicalise_paths(tree)
             _canonicalise_flags(tree)
+            _canonicalise_selected_callee(tree)
             mi = ModuleInfo(modname, rel, tree, src)
             self.modules[modname] = mi
             self.files_parsed.append(rel)
@@ -351,6 +413,7 @@ class Model:
             self._expand_templates(mi)
         self.inlined = []       # (caller FuncInfo, helper FuncInfo) pairs, see _inline_recording_helpers
         self._canonicalise_out_params()
+        self._canonicalise_dispatch_tables()
         known = _known_private()
         for mn, mi in self.modules.items():
             # private helpers that exist on the reference tree are part of its architecture (kernels, pullbacks: analysed as
@@ -362,7 +425,10 @@ class Model:
             for ci in mi.classes.values():
                 fis.extend(ci.all_defs)
             for fi in fis:
+                if fi.cls is not None:
+                    _propagate_snapshots(fi.node)
                 if getattr(fi, 'expanded', False):
+                    _simplify_tuple_roundtrips(fi.node)
                     _renumber(fi.node)
 
     def _resolve_relative(self, mi, level, module):
@@ -862,9 +928,159 @@ def _is_kind_test(e, stable):
             return all(isinstance(n, (ast.Name, ast.Attribute, ast.Tuple, ast.Constant, ast.Load)) for n in ast.walk(e.args[1]))
         if d in ('numpy.isscalar',) and len(e.args) == 1:
             return True
+    if isinstance(e, ast.Compare) and len(e.ops) == 1 and isinstance(e.comparators[0], ast.Constant) and isinstance(e.comparators[0].value, int):
+        # a test of the rank of a never-reassigned name: numpy.ndim(x) == 3, x.ndim > 1, len(x.shape) == 2
+        l = e.left
+        base = None
+        if isinstance(l, ast.Call) and dotted_name(l.func) == 'numpy.ndim' and len(l.args) == 1 and isinstance(l.args[0], ast.Name):
+            base = l.args[0].id
+        elif isinstance(l, ast.Attribute) and l.attr == 'ndim' and isinstance(l.value, ast.Name):
+            base = l.value.id
+        elif isinstance(l, ast.Call) and dotted_name(l.func) == 'len' and len(l.args) == 1 and isinstance(l.args[0], ast.Attribute) \
+                and l.args[0].attr == 'shape' and isinstance(l.args[0].value, ast.Name):
+            base = l.args[0].value.id
+        if base is not None and base in stable:
+            return True
     if isinstance(e, ast.Compare) and len(e.ops) == 1 and isinstance(e.ops[0], (ast.Is, ast.IsNot)) and isinstance(e.left, ast.Name) \
             and e.left.id in stable and isinstance(e.comparators[0], ast.Constant) and e.comparators[0].value is None:
         return True
+    return False
+
+
+def _canonicalise_copyto(tree):
+    """`numpy.copyto(T, V)` (any casting=) stores V into the storage of T like `T[...] = V` does: one spelling for the rules"""
+    class T(ast.NodeTransformer):
+        def visit_Expr(self, st):
+            c = st.value
+            if isinstance(c, ast.Call) and dotted_name(c.func) == 'numpy.copyto' and len(c.args) == 2 \
+                    and all(k.arg in ('casting',) for k in c.keywords) and isinstance(c.args[0], (ast.Name, ast.Attribute, ast.Subscript)):
+                tgt = copy.deepcopy(c.args[0])
+                for n in ast.walk(tgt):
+                    if hasattr(n, 'ctx'):
+                        n.ctx = ast.Load()
+                new = ast.Assign(targets=[ast.Subscript(value=tgt, slice=ast.Constant(value=Ellipsis), ctx=ast.Store())], value=c.args[1])
+                ast.copy_location(new, st)
+                for n in ast.walk(new):
+                    if not hasattr(n, 'lineno'):
+                        ast.copy_location(n, st)
+                return new
+            return st
+    T().visit(tree)
+
+
+def _canonicalise_ndindex(tree):
+    """`for d, p in numpy.ndindex(D, P): body` visits the same (d, p) in the same order as `for d in range(D): for p in range(P): body`
+    (also itertools.product(range(D), range(P))); loops with break/else at that level are left alone"""
+    class T(ast.NodeTransformer):
+        def visit_For(self, lp):
+            self.generic_visit(lp)
+            it = lp.iter
+            if lp.orelse or not isinstance(lp.target, ast.Tuple) or not isinstance(it, ast.Call) or it.keywords:
+                return lp
+            d = dotted_name(it.func)
+            bounds = None
+            if d == 'numpy.ndindex' and len(it.args) == len(lp.target.elts) >= 2:
+                bounds = [ast.Call(func=ast.Name(id='range', ctx=ast.Load()), args=[a], keywords=[]) for a in it.args]
+            elif d in ('itertools.product',) and len(it.args) == len(lp.target.elts) >= 2 and all(
+                    isinstance(a, ast.Call) and isinstance(a.func, ast.Name) and a.func.id == 'range' for a in it.args):
+                bounds = list(it.args)
+            if bounds is None or not all(isinstance(e, ast.Name) for e in lp.target.elts):
+                return lp
+
+            def has_break(body):
+                for b in body:
+                    for n in ast.walk(b):
+                        if isinstance(n, ast.Break):
+                            return True
+                return False
+            if has_break(lp.body):
+                return lp
+            inner = lp.body
+            for tgt, rng in reversed(list(zip(lp.target.elts, bounds))):
+                new = ast.For(target=tgt, iter=rng, body=inner, orelse=[])
+                ast.copy_location(new, lp)
+                for n in ast.walk(rng):
+                    if not hasattr(n, 'lineno'):
+                        ast.copy_location(n, lp)
+                inner = [new]
+            return inner[0]
+    T().visit(tree)
+
+
+def _is_path(e):
+    """a pure access path: name, attribute chain, subscripts with constant / name indices"""
+    if isinstance(e, ast.Name):
+        return True
+    if isinstance(e, ast.Attribute):
+        return _is_path(e.value)
+    if isinstance(e, ast.Subscript):
+        sl = e.slice
+        ok = isinstance(sl, ast.Constant) or isinstance(sl, ast.Name)
+        return ok and _is_path(e.value)
+    return False
+
+
+def _canonicalise_paths(tree):
+    """`saved = F.setitem` ... `if is_set(saved): buffer = F.args[0].x; buffer[saved[0]] = saved[1]` reads like the code with the
+    access paths written out.  A local is replaced by its path when it is bound once to a pure access path (attributes /
+    constant or name subscripts), every use follows the binding inside the same block, the names the path starts from are
+    not rebound in between, and nothing in the function stores to that path, a prefix or an extension of it."""
+    for f in ast.walk(tree):
+        if not isinstance(f, ast.FunctionDef):
+            continue
+        for _ in range(4):
+            if not _paths_once(f):
+                break
+
+
+def _paths_once(f):
+    stores = {}
+    for n in ast.walk(f):
+        if isinstance(n, ast.Name) and isinstance(n.ctx, (ast.Store, ast.Del)):
+            stores[n.id] = stores.get(n.id, 0) + 1
+    a = f.args
+    params = {x.arg for x in a.posonlyargs + a.args + a.kwonlyargs}
+    nested = {n.id for g in ast.walk(f) if isinstance(g, (ast.FunctionDef, ast.Lambda)) and g is not f for n in ast.walk(g) if isinstance(n, ast.Name)}
+    stored_paths = [norm(n) for n in ast.walk(f) if isinstance(n, (ast.Attribute, ast.Subscript)) and isinstance(n.ctx, (ast.Store, ast.Del))]
+    stored_paths += [norm(n.target) for n in ast.walk(f) if isinstance(n, ast.AugAssign) and not isinstance(n.target, ast.Name)]
+    blocks = []
+    for n in ast.walk(f):
+        for attr in ('body', 'orelse', 'finalbody'):
+            blk = getattr(n, attr, None)
+            if isinstance(blk, list) and blk and isinstance(blk[0], ast.stmt):
+                blocks.append((n, attr, blk))
+    for owner, attr, blk in blocks:
+        for i, st in enumerate(blk):
+            if not (isinstance(st, ast.Assign) and len(st.targets) == 1 and isinstance(st.targets[0], ast.Name)):
+                continue
+            nm, v = st.targets[0].id, st.value
+            if stores.get(nm) != 1 or nm in params or nm in nested or not isinstance(v, (ast.Attribute, ast.Subscript)) or not _is_path(v):
+                continue
+            if isinstance(v, ast.Attribute) and v.attr in ('size', 'shape', 'ndim', 'dtype', 'T', 'real', 'imag', '__name__', '__class__'):
+                continue        # a value (extent, dtype), not a reference to an object of the graph
+            txt = norm(v)
+            # stores to the path itself / a prefix are rebinding; stores to an extension through the local are what we rewrite
+            if any(p_ == txt or txt.startswith(p_ + '.') or txt.startswith(p_ + '[') for p_ in stored_paths):
+                continue
+            rest = blk[i + 1:]
+            inside = {id(x) for r_ in rest for x in ast.walk(r_)}
+            uses = [x for x in ast.walk(f) if isinstance(x, ast.Name) and x.id == nm and isinstance(x.ctx, ast.Load)]
+            if not uses or any(id(u) not in inside for u in uses):
+                continue
+            base_names = {x.id for x in ast.walk(v) if isinstance(x, ast.Name)}
+            rebound = any(isinstance(x, ast.Name) and isinstance(x.ctx, (ast.Store, ast.Del)) and x.id in base_names for r_ in rest for x in ast.walk(r_))
+            aug_on_local = any(isinstance(x, ast.AugAssign) and isinstance(x.target, ast.Name) and x.target.id == nm for r_ in rest for x in ast.walk(r_))
+            if rebound or aug_on_local:
+                continue
+
+            class T(ast.NodeTransformer):
+                def visit_Name(self, n):
+                    if n.id == nm and isinstance(n.ctx, ast.Load):
+                        return ast.copy_location(copy.deepcopy(v), n)
+                    return n
+            new_rest = [T().visit(r_) for r_ in rest]
+            setattr(owner, attr, blk[:i] + new_rest if (blk[:i] + new_rest) else [ast.copy_location(ast.Pass(), st)])
+            return True
     return False
 
 
@@ -908,12 +1124,211 @@ def _canonicalise_flags(tree):
             f.body = new_body
 
 
+def _canonicalise_selected_callee(tree):
+    """`if A: kernel, operands = cls._k1, (a, b) ... elif B: kernel, operands = cls._k2, (c, d) ... else: raise`
+    followed by one shared tail `out = alloc(...); kernel(*operands, out=out.data); return out` reads like the chain with
+    the tail repeated in every arm and the selected callee / operand tuple written out (the inverse of merging identical
+    tails of an if/elif chain)."""
+    for f in ast.walk(tree):
+        if not isinstance(f, ast.FunctionDef):
+            continue
+        body = f.body
+        for i, st in enumerate(body):
+            if not (isinstance(st, ast.If) and st.orelse and i + 1 < len(body)):
+                continue
+            tail = body[i + 1:]
+            calls = [c for t in tail for c in ast.walk(t) if isinstance(c, ast.Call) and isinstance(c.func, ast.Name)]
+            if not calls:
+                continue
+            # arms of the chain
+            arms = []
+            cur = st
+            while True:
+                arms.append(cur.body)
+                if len(cur.orelse) == 1 and isinstance(cur.orelse[0], ast.If):
+                    cur = cur.orelse[0]
+                    continue
+                arms.append(cur.orelse)
+                break
+            if not arms[-1]:
+                continue
+            live = [a for a in arms if not _terminates(a)]
+
+            def bindings(arm):
+                env = {}
+                for b in arm:
+                    if isinstance(b, ast.Assign) and len(b.targets) == 1:
+                        t, v = b.targets[0], b.value
+                        if isinstance(t, ast.Name):
+                            env[t.id] = v
+                        elif isinstance(t, ast.Tuple) and isinstance(v, ast.Tuple) and len(t.elts) == len(v.elts):
+                            for x, y in zip(t.elts, v.elts):
+                                if isinstance(x, ast.Name):
+                                    env[x.id] = y
+                return env
+            envs = [bindings(a) for a in live]
+            sel = [c for c in calls if all(c.func.id in e and isinstance(e[c.func.id], (ast.Attribute, ast.Name)) for e in envs)]
+            if not sel or not live:
+                continue
+            # the selected names must not be bound anywhere else
+            names = {c.func.id for c in sel} | {a.value.id for c in sel for a in c.args if isinstance(a, ast.Starred) and isinstance(a.value, ast.Name)}
+            outside = [n for t in body[:i] + tail for n in ast.walk(t) if isinstance(n, ast.Name) and isinstance(n.ctx, ast.Store) and n.id in names]
+            if outside:
+                continue
+            for arm, env in zip(live, envs):
+                new_tail = copy.deepcopy(tail)
+
+                class T(ast.NodeTransformer):
+                    def visit_Call(self, c):
+                        self.generic_visit(c)
+                        if isinstance(c.func, ast.Name) and c.func.id in names and c.func.id in env:
+                            c.func = copy.deepcopy(env[c.func.id])
+                            new_args = []
+                            for a in c.args:
+                                if isinstance(a, ast.Starred) and isinstance(a.value, ast.Name) and isinstance(env.get(a.value.id), ast.Tuple):
+                                    new_args.extend(copy.deepcopy(env[a.value.id].elts))
+                                else:
+                                    new_args.append(a)
+                            c.args = new_args
+                        return c
+                arm.extend(T().visit(t) for t in new_tail)
+            f.body = body[:i + 1]
+            break
+
+
 LINE_SCALE = 100000
 
 
 def true_line(ln):
     """line number for reports: lines of functions with expanded helper calls are scaled by LINE_SCALE (see _renumber)"""
     return ln // LINE_SCALE if isinstance(ln, int) and ln >= LINE_SCALE else ln
+
+
+def _simplify_tuple_roundtrips(fnode):
+    """`work = (dF, S, X)` ... `dF, S, X = work` (what expanding a helper that receives a bundle of work arrays leaves behind):
+    the unpacking is replaced by the element-wise bindings, identities `x = x` are dropped.  Only for a bundle that is
+    assigned once from plain names each of which has a single other binding."""
+    stores = {}
+    aug = {id(n.target) for n in ast.walk(fnode) if isinstance(n, ast.AugAssign)}      # `S *= 0.5` updates the array in place
+    for n in ast.walk(fnode):
+        if isinstance(n, ast.Name) and isinstance(n.ctx, ast.Store) and id(n) not in aug:
+            stores[n.id] = stores.get(n.id, 0) + 1
+    packs = {}
+    unpacks = []
+    for n in ast.walk(fnode):
+        if isinstance(n, ast.Assign) and len(n.targets) == 1:
+            t, v = n.targets[0], n.value
+            if isinstance(t, ast.Name) and isinstance(v, ast.Tuple) and v.elts and all(isinstance(e, ast.Name) for e in v.elts) and stores.get(t.id) == 1:
+                packs[t.id] = v
+            if isinstance(t, ast.Tuple) and isinstance(v, ast.Name) and all(isinstance(e, ast.Name) for e in t.elts):
+                unpacks.append(n)
+    todo = {}
+    for u in unpacks:
+        pk = packs.get(u.value.id)
+        if pk is None or len(pk.elts) != len(u.targets[0].elts):
+            continue
+        n_un = sum(1 for x in unpacks if x.value.id == u.value.id)
+        ok = True
+        for src, dst in zip(pk.elts, u.targets[0].elts):
+            extra = n_un if src.id == dst.id else 0
+            if stores.get(src.id, 0) - extra > 1:
+                ok = False
+        if ok:
+            todo[id(u)] = [ast.copy_location(ast.Assign(targets=[ast.copy_location(ast.Name(id=dst.id, ctx=ast.Store()), u)],
+                                                        value=ast.copy_location(ast.Name(id=src.id, ctx=ast.Load()), u)), u)
+                           for src, dst in zip(pk.elts, u.targets[0].elts) if src.id != dst.id]
+    if not todo:
+        return
+
+    def rec(body):
+        out = []
+        for st in body:
+            if id(st) in todo:
+                out.extend(todo[id(st)])
+                continue
+            for attr in ('body', 'orelse', 'finalbody'):
+                sub = getattr(st, attr, None)
+                if isinstance(sub, list) and sub and isinstance(sub[0], ast.stmt):
+                    new = rec(sub)
+                    setattr(st, attr, new if new or attr != 'body' else [ast.copy_location(ast.Pass(), st)])
+            if isinstance(st, ast.Try):
+                for h in st.handlers:
+                    h.body = rec(h.body) or [ast.copy_location(ast.Pass(), st)]
+            out.append(st)
+        return out
+    fnode.body = rec(fnode.body)
+
+
+def _propagate_snapshots(fnode):
+    """`nodes = list(self.functionList)` ... `for i in range(len(nodes)-1, -1, -1): f = nodes[i]`: a local that is bound once to a
+    snapshot (list(S), tuple(S), S[:], S) of an attribute sequence which the function never rebinds or mutates, and that is
+    only measured, indexed and iterated, reads like the sequence itself."""
+    stores = {}
+    for n in ast.walk(fnode):
+        if isinstance(n, ast.Name) and isinstance(n.ctx, ast.Store):
+            stores[n.id] = stores.get(n.id, 0) + 1
+    cands = {}
+    for st in ast.walk(fnode):
+        if isinstance(st, ast.Assign) and len(st.targets) == 1 and isinstance(st.targets[0], ast.Name) and stores.get(st.targets[0].id) == 1:
+            v = st.value
+            src = None
+            if isinstance(v, ast.Call) and isinstance(v.func, ast.Name) and v.func.id in ('list', 'tuple') and len(v.args) == 1 and not v.keywords:
+                src = v.args[0]
+            elif isinstance(v, ast.Subscript) and isinstance(v.slice, ast.Slice) and v.slice.lower is None and v.slice.upper is None and v.slice.step is None:
+                src = v.value
+            if src is not None and isinstance(src, ast.Attribute) and isinstance(src.value, ast.Name) and src.value.id in ('self', 'cls'):
+                cands[st.targets[0].id] = (st, src)
+    if not cands:
+        return
+    mutators = ('append', 'insert', 'extend', 'pop', 'remove', 'clear', 'sort', 'reverse')
+    for name, (st, src) in list(cands.items()):
+        txt = norm(src)
+        bad = False
+        parents = {}
+        for n in ast.walk(fnode):
+            for ch in ast.iter_child_nodes(n):
+                parents[id(ch)] = n
+        for n in ast.walk(fnode):
+            if isinstance(n, ast.Attribute) and norm(n) == txt and isinstance(n.ctx, (ast.Store, ast.Del)):
+                bad = True
+            if isinstance(n, ast.Call) and isinstance(n.func, ast.Attribute) and n.func.attr in mutators and norm(n.func.value) in (txt, name):
+                bad = True
+            if isinstance(n, ast.Name) and n.id == name and isinstance(n.ctx, ast.Load):
+                par = parents.get(id(n))
+                ok = (isinstance(par, ast.Subscript) and par.value is n and isinstance(par.ctx, ast.Load)) \
+                    or (isinstance(par, ast.Call) and isinstance(par.func, ast.Name) and par.func.id in ('len', 'reversed', 'enumerate', 'zip', 'iter')) \
+                    or (isinstance(par, (ast.For, ast.comprehension)) and par.iter is n)
+                if not ok:
+                    bad = True
+        if bad:
+            cands.pop(name)
+    if not cands:
+        return
+
+    class T(ast.NodeTransformer):
+        def visit_Name(self, n):
+            if isinstance(n.ctx, ast.Load) and n.id in cands:
+                return ast.copy_location(copy.deepcopy(cands[n.id][1]), n)
+            return n
+    drop = {id(v[0]) for v in cands.values()}
+
+    def rec(body):
+        out = []
+        for st in body:
+            if id(st) in drop:
+                continue
+            for attr in ('body', 'orelse', 'finalbody'):
+                sub = getattr(st, attr, None)
+                if isinstance(sub, list) and sub and isinstance(sub[0], ast.stmt):
+                    new = rec(sub)
+                    setattr(st, attr, new if new or attr != 'body' else [ast.copy_location(ast.Pass(), st)])
+            if isinstance(st, ast.Try):
+                for h in st.handlers:
+                    h.body = rec(h.body) or [ast.copy_location(ast.Pass(), st)]
+            out.append(st)
+        return out
+    fnode.body = rec(fnode.body)
+    T().visit(fnode)
 
 
 def _renumber(fnode):
@@ -975,6 +1390,36 @@ def _as_expression(body):
             return None
         return ast.copy_location(ast.IfExp(test=st.test, body=e1, orelse=e2), st)
     return None
+
+
+class _NotTailStructured(Exception):
+    pass
+
+
+def _has_return(node):
+    return any(isinstance(n, ast.Return) for n in ast.walk(node))
+
+
+def _assignify(body, make):
+    """rewrite a helper body whose returns all sit at the end of if/else arms into one where every `return v` is the
+    statement make(v) (an assignment to the call's target): `if c: ...; return a` / `...; return b` becomes
+    `if c: ...; T = a  else: ...; T = b`.  Returns inside loops / try / with are not handled."""
+    out = []
+    for i, st in enumerate(body):
+        if isinstance(st, ast.Return):
+            out.append(make(st.value if st.value is not None else ast.Constant(value=None)))
+            return out
+        if isinstance(st, ast.If) and _has_return(st):
+            rest = body[i + 1:]
+            b = _assignify(list(st.body) + ([] if _terminates(st.body) else copy.deepcopy(rest)), make)
+            o = _assignify(list(st.orelse) + ([] if _terminates(st.orelse) else copy.deepcopy(rest)), make)
+            out.append(ast.copy_location(ast.If(test=st.test, body=b or [ast.Pass()], orelse=o), st))
+            return out
+        if _has_return(st):
+            raise _NotTailStructured()
+        out.append(st)
+    out.append(make(ast.Constant(value=None)))
+    return out
 
 
 def _normal_body(body):
@@ -1051,8 +1496,12 @@ def _inline_calls(fi, clsname, helpers, used):
         # a body whose only return is its last statement can stand in for the call wherever the call is a whole statement
         single_exit = not early_ret and isinstance(body[-1], ast.Return) and not any(
             isinstance(n, ast.Return) for b in body[:-1] for n in ast.walk(b))
+        tailed = None
         if not straight and not tail and not splice and not single_exit:
-            return None
+            # returns at the end of if/else arms: every `return v` becomes the assignment the call stood for
+            if not isinstance(st, (ast.Assign, ast.Expr)) or sum(len(ast.dump(b)) for b in body) > 6000:
+                return None
+            tailed = True
         params = list(h.params)
         recv = None
         if h.kind in ('method', 'classmethod') and params:
@@ -1091,7 +1540,32 @@ def _inline_calls(fi, clsname, helpers, used):
                 mapping[loc] = loc + suffix
         sub = _Subst(mapping)
         out = list(pre)
-        if straight or (single_exit and not tail) or (single_exit and tail):
+        if tailed:
+            def make(v):
+                v = sub.visit(copy.deepcopy(v))
+                if isinstance(st, ast.Assign):
+                    return ast.Assign(targets=copy.deepcopy(st.targets), value=v)
+                return ast.Expr(value=v)
+            try:
+                new_body = _assignify([copy.deepcopy(b) for b in body], lambda v: ('RET', v))
+            except _NotTailStructured:
+                return None
+
+            def finish(stmts):
+                res = []
+                for b in stmts:
+                    if isinstance(b, tuple) and b[0] == 'RET':
+                        res.append(make(b[1]))
+                    elif isinstance(b, ast.If):
+                        b.body = finish(b.body)
+                        b.orelse = finish(b.orelse)
+                        b.test = sub.visit(b.test)
+                        res.append(b)
+                    else:
+                        res.append(sub.visit(b))
+                return res
+            out.extend(finish(new_body))
+        elif straight or (single_exit and not tail) or (single_exit and tail):
             has_ret = isinstance(body[-1], ast.Return)
             for b in (body[:-1] if has_ret else body):
                 out.append(sub.visit(copy.deepcopy(b)))
